@@ -676,6 +676,13 @@ func runC08(r *run) {
 		w := &world{files: []map[string]string{{"inc.tpl": "<{{ x }},{{ y }},{{ g }}>"}}, globals: gctx{{"g", gStr("G")}, {"x", gStr("GX")}, {"y", gStr("GY")}, {"nv", gStr("GNV")}, {"gm", gMap([]string{"k"}, []*gval{gStr("GK")})}}}
 		ctx := gctx{{"x", gStr("CX")}, {"nv", gNil()}, {"gm", gNil()}, {"block", gStr("CB")}, {"forloop", gStr("CF")}}
 		w.files[0]["blk.tpl"] = "{% block b %}B{% endblock %}[{{ block }}]"
+		w.files[0]["lib.tpl"] = "{% macro badge() export %}<{{ x }}/{{ y }}/{{ g }}>{% endmacro %}{% macro two(x) export %}({{ x }}{{ y }}){% endmacro %}"
+		// names bound by tags AFTER an import are what an imported macro's free names mean at the call
+		for _, src := range []string{"{% import \"lib.tpl\" badge %}{{ badge() }}{% set x = \"SX\" %}{{ badge() }}{% with y=\"WY\" %}{{ badge() }}{% endwith %}",
+			"{% import \"lib.tpl\" badge, two %}{% set y = \"SY\" %}{{ two(\"a\") }}{% for g in \"pq\" %}{{ badge() }}{% endfor %}{{ two(x) }}",
+			"{% set x = \"S0\" %}{% import \"lib.tpl\" badge as b2 %}{% set x = \"S1\" %}{{ b2() }}{% macro local() %}<{{ x }}>{% endmacro %}{% set x = \"S2\" %}{{ local() }}{{ b2() }}"} {
+			emit(caseT{"shadow", w.args(src, ctx)})
+		}
 		for _, c := range [][2]string{{"{{ g }}{{ x }}{{ y }}", "GCXGY"}, {"{% set x = \"SX\" %}{{ x }}{{ y }}", "SXGY"}, {"{% with y=\"WY\" %}{{ x }}{{ y }}{% endwith %}{{ y }}", "CXWYGY"},
 			{"{% for g in \"ab\" %}{{ g }}{% endfor %}{{ g }}", "abG"},
 			{"{% with x=\"WX\" %}{% include \"inc.tpl\" %}{% endwith %}{% for y in \"pq\" %}{% include \"inc.tpl\" %}{% endfor %}{% set g = \"SG\" %}{% include \"inc.tpl\" %}{% ssi \"inc.tpl\" parsed %}", "<WX,GY,G><CX,p,G><CX,q,G><CX,GY,SG><CX,GY,SG>"},
